@@ -10,6 +10,8 @@ import (
 	"github.com/ava-labs/avalanchego/utils/logging"
 	"github.com/ava-labs/avalanchego/utils/timer"
 	"go.uber.org/zap"
+
+	"github.com/ava-labs/hypersdk/internal/verifhook"
 )
 
 type MessageBuffer struct {
@@ -35,6 +37,7 @@ func NewMessageBuffer(log logging.Logger, pending int, maxSize int, timeout time
 		timeout: timeout,
 	}
 	m.pendingTimer = timer.NewTimer(func() {
+		verifhook.AwaitLock("pubsub.timer", 0, &m.l)
 		m.l.Lock()
 		defer m.l.Unlock()
 
@@ -54,6 +57,7 @@ func NewMessageBuffer(log logging.Logger, pending int, maxSize int, timeout time
 }
 
 func (m *MessageBuffer) Close() error {
+	verifhook.AwaitLock("pubsub.Close", 0, &m.l)
 	m.l.Lock()
 	defer m.l.Unlock()
 
@@ -86,6 +90,7 @@ func (m *MessageBuffer) clearPending() {
 }
 
 func (m *MessageBuffer) Send(msg []byte) error {
+	verifhook.AwaitLock("pubsub.Send", 0, &m.l)
 	m.l.Lock()
 	defer m.l.Unlock()
 
